@@ -119,7 +119,9 @@ def split_sections(text):
             raise OutOfDomain("unterminated section %r" % h)
         out.append((h[1:-1], body))
         i = j + 1
-    names = [n_ for n_, _ in out]
+    # a RECOGNISED title written twice is unspecified; unknown sections are reported and ignored whatever their
+    # titles, so any number of them may share a title
+    names = [n_ for n_, _ in out if n_ in ("Song", "SyncTrack", "Events") or n_ in TRACK_HEADERS]
     if len(set(names)) != len(names):
         raise OutOfDomain("duplicate section")
     return out
